@@ -1036,6 +1036,7 @@ pub const WORDS: &[&str] = &[
     "end\n", "[x]", "{y}", "# not comment", "a: b", "- dash", "!bang", "&amp", "*star", "|pipe", ">gt", "%pct", "@at", "`tick",
     "long text with several words in it", "0x1F", ".inf", "😀 emoji", "q'q\"q", "a  b", "e\u{85}nel", "http://x.y/z?a=b#c",
     "---", "...", "--- x", "k:", ":", "-", "?", "a ,b", "x\ty", "\n", "l1\nl2\nl3", "sp \nnl",
+    "3.14159265358979323846264338327950288419716939937510582097494459230781640628", "000000000000000000000000000000000000000000000000000000000000000042", "10000000000000000000000000000000000000000000000000000000000000000000000", "+000000000000000000000000000000000000000000000000000000000000000042", "0x000000000000000000000000000000000000000000000000000000000000001F", "0o000000000000000000000000000000000000000000000000000000000000000000000017", "99999999999999999999999999999999999999999999999999999999999999999999999999999999.5e-3",
 ];
 
 pub const BLOCK_LINES: &[&str] = &[
